@@ -19,7 +19,7 @@ FINAL = "FinalTimeHasBeenReturned"
 # expected status written together with each returned step status; None = "no change" (state machine stays where it is)
 EXPECT = {
     AIR: {"EndOfSimulation": {FINAL}, "ReachedEventTrigger": {"StepHasBeenReturnedWithEvent"},
-          "StartOfContinuousInterval": {"StepHasBeenReturnedNoEvent"}, "var:reportReason": {"StepHasBeenReturnedNoEvent"},
+          "StartOfContinuousInterval": {"StepHasBeenReturnedNoEvent"}, "var": {"StepHasBeenReturnedNoEvent"},
           "ReachedReportTime": {None, "StepHasBeenReturnedNoEvent"}, "ReachedScheduledEvent": {None},
           "InvalidSuccessfulStepStatus": {None, "any"}},
     CP: {"EndOfSimulation": {FINAL}, "ReachedEventTrigger": {"StepHasBeenReturnedWithEvent"},
@@ -44,7 +44,7 @@ def ret_label(r):
     if isinstance(v, list) and v[0] == "enum":
         return en[0]
     if isinstance(v, list) and v[0] == "var":
-        return "var:" + v[1]
+        return "var"        # a status collected in a local variable (its name is irrelevant)
     if isinstance(v, list) and v[0] == "cond":
         return "cond"
     return en[0] if len(en) == 1 else sx_str(v)
